@@ -104,6 +104,7 @@ def variants_for(prop: str) -> List[Dict[str, Any]]:
     out.append({'name': 'generated twin: every module reformatted with ast.unparse (all line numbers, quotes and comments change)',
                 'kind': 'twin', 'generator': 'unparse'})
     out.append({'name': 'generated twin: every local variable of every function renamed', 'kind': 'twin', 'generator': 'rename'})
+    out.append({'name': 'generated twin: every plain if/else rewritten as `if not c: <else> else: <then>`', 'kind': 'twin', 'generator': 'ifswap'})
     if SEEDED.is_dir():
         for d in sorted(SEEDED.iterdir()):
             m = d / 'meta.json'
